@@ -387,7 +387,7 @@ fn build_pool(seed: u64, idx: u64, out: &mut RunOut) -> (Vec<Call>, bool, String
   let mut shared = false;
   let origin;
   let feats_opts: [Option<Vec<String>>; 3] = [None, Some(vec![]), Some(vec!["featx".into()])];
-  match rk.weighted(&[5, 3, 3, 2, 2, 2, 1, 2]) {
+  match rk.weighted(&[5, 3, 3, 2, 2, 2, 1, 2, 2]) {
     0 => {
       // two or three independently inferred schemas: they reuse the rule names root, r1, r2, ... with
       // different definitions; conforming, perturbed and malformed documents; all formats
@@ -501,8 +501,45 @@ fn build_pool(seed: u64, idx: u64, out: &mut RunOut) -> (Vec<Call>, bool, String
       pool.push(Call { kind: "json".into(), schema: bad_schema.clone(), doc: malform_json(&mut rw, &j), features: None });
       let csvdoc = gen_csv_doc(&mut rw, &dcfg);
       let csv = to_csv(&csvdoc, &mut rw).into_bytes();
-      pool.push(Call { kind: "csv0".into(), schema: bad_schema, doc: csv.clone(), features: None });
-      pool.push(Call { kind: "csv0".into(), schema: schema.clone(), doc: csv, features: None });
+      pool.push(Call { kind: "csv0".into(), schema: bad_schema.clone(), doc: csv.clone(), features: None });
+      pool.push(Call { kind: "csv0".into(), schema: schema.clone(), doc: csv.clone(), features: None });
+      // awkward documents on every route, under the good and a bad schema: empty, BOM-prefixed, trailing content
+      let mut bom_json = vec![0xef, 0xbb, 0xbf];
+      bom_json.extend_from_slice(&j);
+      let mut trailing_json = j.clone();
+      trailing_json.extend_from_slice(b" 1");
+      let mut trailing_cbor = cb.clone();
+      trailing_cbor.push(0x00);
+      let mut bom_csv = vec![0xef, 0xbb, 0xbf];
+      bom_csv.extend_from_slice(&csv);
+      let second_stage_bad = format!("{}dup-x = int\ndup-x = tstr\nuses = [undefined-y]\n", if schema.ends_with('\n') { schema.clone() } else { format!("{}\n", schema) });
+      for sch in [&schema, &second_stage_bad] {
+        if rw.coin() {
+          pool.push(Call { kind: "json".into(), schema: sch.clone(), doc: Vec::new(), features: None });
+        }
+        if rw.coin() {
+          pool.push(Call { kind: "json".into(), schema: sch.clone(), doc: bom_json.clone(), features: None });
+        }
+        if rw.coin() {
+          pool.push(Call { kind: "json".into(), schema: sch.clone(), doc: trailing_json.clone(), features: None });
+        }
+        if rw.coin() {
+          pool.push(Call { kind: "cbor".into(), schema: sch.clone(), doc: Vec::new(), features: None });
+        }
+        if rw.coin() {
+          pool.push(Call { kind: "cbor".into(), schema: sch.clone(), doc: trailing_cbor.clone(), features: None });
+        }
+        if rw.coin() {
+          pool.push(Call { kind: if rw.coin() { "csv0".into() } else { "csv1".into() }, schema: sch.clone(), doc: Vec::new(), features: None });
+        }
+        if rw.coin() {
+          pool.push(Call { kind: if rw.coin() { "csv0".into() } else { "csv1".into() }, schema: sch.clone(), doc: bom_csv.clone(), features: None });
+        }
+      }
+      while pool.len() > 16 {
+        let k = rw.below(pool.len());
+        pool.remove(k);
+      }
     }
     4 => {
       // fixtures: valid data at rest, every document of a schema plus documents of another schema
@@ -534,6 +571,36 @@ fn build_pool(seed: u64, idx: u64, out: &mut RunOut) -> (Vec<Call>, bool, String
           let k = rw.below(pool.len());
           pool.remove(k);
         }
+      }
+    }
+    8 => {
+      // error locations in awkward places: keys containing '/', '~', quotes or nothing at all, numeric-looking
+      // keys, array indices of two digits, errors after skipped optional members and failed alternatives
+      origin = "locations".to_string();
+      out.probe("pool_locations");
+      let schemas = [
+        "root = { * tstr => [* int] }\n",
+        "root = { ? \"a/b\": inner, ? \"\": inner, ? \"~\": inner, ? \"0\": inner, * tstr => any }\ninner = { ? opt: tstr, v: [* uint] / nil }\n",
+        "root = [* { ? skip: int, id: uint, tags: [* tstr .size (1..3)] } / [* int]]\n",
+        "root = { list: [12*20 item] }\nitem = int / { k: tstr }\n",
+      ];
+      let docs = [
+        r#"{"a/b":[0,1,2,3,4,5,6,7,8,9,10,11,"x"],"":["y"],"~":[1,"z"],"0":[true]}"#,
+        r#"{"a/b":{"v":[1,2,-3]},"":{"opt":5,"v":null},"~":{"v":[0,1,2,3,4,5,6,7,8,9,10,"e"]},"0":{"v":"no"},"q"uote":1}"#,
+        r#"[{"id":1,"tags":["ab"]},{"skip":"s","id":2,"tags":["abcd"]},[1,2,"three"],{"id":-1,"tags":[]},{"id":3,"tags":["a","b","c","d","toolong"]}]"#,
+        r#"{"list":[0,1,2,3,4,5,6,7,8,9,10,{"k":11},12,{"k":13},"bad",15]}"#,
+        r#"{"list":[0,1,2]}"#,
+      ];
+      for sch in schemas.iter() {
+        for d in docs.iter() {
+          if rw.chance(1, 2) {
+            pool.push(Call { kind: "json".into(), schema: sch.to_string(), doc: d.as_bytes().to_vec(), features: None });
+          }
+        }
+      }
+      while pool.len() > 9 {
+        let k = rw.below(pool.len());
+        pool.remove(k);
       }
     }
     7 => {
